@@ -124,6 +124,16 @@ func genDet(r *rand.Rand, s sizes) input {
 		in.Docs = append(in.Docs, genDoc(r))
 	}
 	in.SharedFonts = r.Intn(2) == 0
+	// in half of the groups all biased documents name the same replacement user-agent sheet: pass 1
+	// parses it afresh for every render, pass 2 reuses one parsed object for all of them
+	if r.Intn(2) == 0 {
+		ua := uaSheet(r)
+		for k := range in.Docs {
+			if in.Docs[k].Biased {
+				in.Docs[k].UA = ua
+			}
+		}
+	}
 	return in
 }
 
